@@ -1,0 +1,459 @@
+//! C20 adapter: the real bitswap prefix codec, inbound block path and response batching behind
+//! the line protocol.
+//!
+//! Operations (one per line, one observation line each):
+//!
+//! * `prefix_dec <hex|->`                         `some <v> <codec> <mh> <len>` / `none`
+//! * `prefix_enc <v> <codec> <mh> <len>`          `<hex>`
+//! * `inbound <prefixhex|-> <data> [h=..]`        `ok <cidhex> <data>` / `dropped` (real `block_to_response`)
+//! * `message <prefixhex|->:<data>[:h] ...`       `event <cidhex>:<data> ...` / `noevent` (real
+//!   `Bitswap::on_message_received` on the prost-encoded message, observed on the user's handle)
+//! * `batches <v> <codec> <mh> <dlen> <sizes>`    real `send_response` over an in-memory yamux
+//!   substream; the frames that arrive at the far end are decoded with prost and reported
+//!   together with the plan computed by the real `extract_next_batch` / `blocks_message`.
+//!
+//! `<data>` is `-` (empty), hex, or `<len>,<fill>`; it is echoed canonically (`<len>,<fill>` when
+//! all bytes are equal). `<sizes>` is a comma separated list of `<size>` or `<size>*<count>`.
+//! Arguments of the form `h=...` carry digests for the formal model and are ignored here.
+
+use super::{
+    block_to_response, blocks_message, config, extract_next_batch, schema, send_response, Bitswap,
+    BitswapEvent, Config, Prefix, ResponseType,
+};
+use crate::{
+    addresses::PublicAddresses,
+    codec::ProtocolCodec,
+    protocol::{ProtocolName, SubstreamKeepAlive, TransportService},
+    substream::Substream,
+    transport::{
+        manager::{handle::InnerTransportManagerCommand, TransportManagerHandle},
+        tcp, KEEP_ALIVE_TIMEOUT,
+    },
+    types::SubstreamId,
+    verif::{hex, peer, VerifBox},
+    BandwidthSink, PeerId,
+};
+
+use cid::{multihash::Multihash, Cid, Version};
+use futures::{future::poll_fn, FutureExt, StreamExt};
+use parking_lot::RwLock;
+use prost::Message;
+use tokio::io::AsyncReadExt;
+use tokio_util::compat::{FuturesAsyncReadCompatExt, TokioAsyncReadCompatExt};
+
+use std::{
+    collections::{HashMap, HashSet, VecDeque},
+    sync::{atomic::AtomicUsize, Arc},
+    time::Duration,
+};
+
+pub struct BitswapBox {
+    rt: tokio::runtime::Runtime,
+}
+
+impl BitswapBox {
+    pub fn new() -> Self {
+        Self {
+            rt: tokio::runtime::Builder::new_current_thread()
+                .enable_all()
+                .build()
+                .expect("runtime"),
+        }
+    }
+}
+
+fn unhex_opt(s: &str) -> Option<Vec<u8>> {
+    if s == "-" {
+        return Some(Vec::new());
+    }
+    if s.len() % 2 != 0 || !s.bytes().all(|c| c.is_ascii_hexdigit()) {
+        return None;
+    }
+    Some(
+        (0..s.len() / 2)
+            .map(|i| u8::from_str_radix(&s[2 * i..2 * i + 2], 16).expect("hex"))
+            .collect(),
+    )
+}
+
+/// `-` | hex | `<len>,<fill>`
+fn parse_data(s: &str) -> Option<Vec<u8>> {
+    match s.split_once(',') {
+        Some((len, fill)) => {
+            let len: usize = len.parse().ok()?;
+            let fill: u8 = fill.parse().ok()?;
+            if len == 0 || len > (1 << 26) {
+                return None;
+            }
+            Some(vec![fill; len])
+        }
+        None => unhex_opt(s),
+    }
+}
+
+fn show_data(d: &[u8]) -> String {
+    match d.first() {
+        None => "-".into(),
+        Some(f) if d.iter().all(|b| b == f) => format!("{},{}", d.len(), f),
+        Some(_) => hex(d),
+    }
+}
+
+fn show_hex(b: &[u8]) -> String {
+    if b.is_empty() {
+        "-".into()
+    } else {
+        hex(b)
+    }
+}
+
+/// `<size>` or `<size>*<count>`, comma separated; at most 2^22 blocks and 2^27 bytes in total.
+fn parse_sizes(s: &str) -> Option<Vec<usize>> {
+    let mut res = Vec::new();
+    let mut total = 0usize;
+    if s == "-" {
+        return Some(res);
+    }
+    for item in s.split(',') {
+        let (size, count) = match item.split_once('*') {
+            Some((a, b)) => (a.parse::<usize>().ok()?, b.parse::<usize>().ok()?),
+            None => (item.parse::<usize>().ok()?, 1),
+        };
+        if size > (1 << 26) || count > (1 << 22) {
+            return None;
+        }
+        total = total.checked_add(size.checked_mul(count)?)?;
+        if res.len() + count > (1 << 22) || total > (1 << 27) {
+            return None;
+        }
+        res.extend(std::iter::repeat(size).take(count));
+    }
+    Some(res)
+}
+
+fn rle(sizes: &[usize]) -> String {
+    let mut out: Vec<String> = Vec::new();
+    let mut i = 0;
+    while i < sizes.len() {
+        let mut j = i;
+        while j < sizes.len() && sizes[j] == sizes[i] {
+            j += 1;
+        }
+        out.push(format!("{}*{}", sizes[i], j - i));
+        i = j;
+    }
+    if out.is_empty() {
+        "-".into()
+    } else {
+        out.join("+")
+    }
+}
+
+fn tag(i: usize) -> u8 {
+    (i % 251) as u8
+}
+
+fn wrap(s: crate::yamux::Stream, codec: ProtocolCodec) -> Substream {
+    Substream::new_tcp(
+        peer(1),
+        SubstreamId::from(0usize),
+        tcp::Substream::new(
+            FuturesAsyncReadCompatExt::compat(s),
+            BandwidthSink::new(),
+            None,
+        ),
+        codec,
+    )
+}
+
+/// Read one unsigned-varint length prefixed frame; `None` at a clean end of stream.
+async fn read_frame<R: tokio::io::AsyncRead + Unpin>(r: &mut R) -> Option<Vec<u8>> {
+    let mut len = 0usize;
+    let mut shift = 0;
+    loop {
+        let mut b = [0u8; 1];
+        match r.read(&mut b).await {
+            Ok(1) => {}
+            _ => return None,
+        }
+        len |= ((b[0] & 0x7f) as usize) << shift;
+        shift += 7;
+        if b[0] & 0x80 == 0 {
+            break;
+        }
+        if shift > 56 {
+            return None;
+        }
+    }
+    let mut buf = vec![0u8; len];
+    r.read_exact(&mut buf).await.ok()?;
+    Some(buf)
+}
+
+/// Run the real `send_response` over an in-memory yamux connection; returns the result of the
+/// call and the frames the remote end received. A sentinel frame written by the adapter after
+/// `send_response` returned marks the end of the response.
+async fn run_send_response(entries: Vec<ResponseType>) -> (bool, Vec<Vec<u8>>) {
+    const SENTINEL: &[u8] = b"END";
+    let (a, b) = tokio::io::duplex(1 << 16);
+    let cfg = crate::yamux::Config::default();
+    let mut ca = crate::yamux::Connection::new(a.compat(), cfg.clone(), crate::yamux::Mode::Client);
+    let mut cb = crate::yamux::Connection::new(b.compat(), cfg, crate::yamux::Mode::Server);
+    let so = poll_fn(|cx| ca.poll_new_outbound(cx)).await.expect("outbound stream");
+    let client =
+        tokio::spawn(
+            async move { while let Some(Ok(_)) = poll_fn(|cx| ca.poll_next_inbound(cx)).await {} },
+        );
+    let (tx, mut rx) = tokio::sync::mpsc::unbounded_channel();
+    let server = tokio::spawn(async move {
+        while let Some(Ok(s)) = poll_fn(|cx| cb.poll_next_inbound(cx)).await {
+            let _ = tx.send(s);
+        }
+    });
+    let reader = tokio::spawn(async move {
+        let mut got = Vec::new();
+        let Some(s) = rx.recv().await else { return got };
+        let mut s = FuturesAsyncReadCompatExt::compat(s);
+        while let Some(f) = read_frame(&mut s).await {
+            if f == SENTINEL {
+                break;
+            }
+            got.push(f);
+        }
+        got
+    });
+
+    let codec = ProtocolCodec::UnsignedVarint(Some(config::MAX_MESSAGE_SIZE));
+    let mut substream = wrap(so, codec);
+    let ok = send_response(&mut substream, entries).await.is_ok();
+    let _ = substream.send_framed(bytes::Bytes::from_static(SENTINEL)).await;
+    let frames = match tokio::time::timeout(Duration::from_secs(120), reader).await {
+        Ok(Ok(f)) => f,
+        _ => panic!("reader did not finish"),
+    };
+    drop(substream);
+    client.abort();
+    server.abort();
+    let _ = client.await;
+    let _ = server.await;
+    (ok, frames)
+}
+
+fn new_bitswap() -> (Bitswap, super::BitswapHandle) {
+    let local_peer = peer(0);
+    let (cmd_tx, _cmd_rx) = tokio::sync::mpsc::channel::<InnerTransportManagerCommand>(64);
+    let handle = TransportManagerHandle::new(
+        local_peer,
+        Arc::new(RwLock::new(HashMap::new())),
+        cmd_tx,
+        HashSet::new(),
+        Default::default(),
+        PublicAddresses::new(local_peer),
+    );
+    let (service, _) = TransportService::new(
+        local_peer,
+        ProtocolName::from(config::PROTOCOL_NAME),
+        Vec::new(),
+        Arc::new(AtomicUsize::new(0usize)),
+        handle,
+        KEEP_ALIVE_TIMEOUT,
+        SubstreamKeepAlive::No,
+    );
+    let (config, handle) = Config::new();
+    (Bitswap::new(service, config), handle)
+}
+
+fn version_of(v: &str) -> Option<Version> {
+    match v {
+        "0" => Some(Version::V0),
+        "1" => Some(Version::V1),
+        _ => None,
+    }
+}
+
+impl BitswapBox {
+    fn batches(&mut self, v: &str, codec: &str, mh: &str, dlen: &str, sizes: &str) -> Option<String> {
+        let version = version_of(v)?;
+        let codec: u64 = codec.parse().ok()?;
+        let mh: u64 = mh.parse().ok()?;
+        let dlen: usize = dlen.parse().ok()?;
+        let sizes = parse_sizes(sizes)?;
+        let hash = Multihash::<64>::wrap(mh, &vec![0xabu8; dlen.min(65)]).ok()?;
+        let cid = Cid::new(version, codec, hash).ok()?;
+
+        let blocks: Vec<(Cid, Vec<u8>)> =
+            sizes.iter().enumerate().map(|(i, s)| (cid, vec![tag(i); *s])).collect();
+
+        // plan: the real extract/blocks_message functions, driven like `send_response` does
+        let mut plan = Vec::new();
+        {
+            let mut queue = blocks.iter().cloned().collect::<VecDeque<_>>();
+            while let Some(batch) = extract_next_batch(&mut queue, config::MAX_BATCH_SIZE) {
+                let batch = batch.collect::<Vec<_>>();
+                let count = batch.len();
+                let sum: usize = batch.iter().map(|b| b.1.len()).sum();
+                let enc = blocks_message(batch).map(|(m, _)| m.len());
+                plan.push(match enc {
+                    Some(e) => format!("{count}:{sum}:{e}"),
+                    None => format!("{count}:{sum}:none"),
+                });
+                if plan.len() > (1 << 22) {
+                    panic!("extract_next_batch does not make progress");
+                }
+            }
+        }
+
+        let original: Vec<(usize, u8)> = blocks.iter().map(|b| (b.1.len(), b.1.first().copied().unwrap_or(0))).collect();
+        let entries =
+            blocks.into_iter().map(|(cid, block)| ResponseType::Block { cid, block }).collect();
+        let (ok, frames) = self.rt.block_on(run_send_response(entries));
+
+        let mut msgs = Vec::new();
+        let mut received: Vec<(usize, u8)> = Vec::new();
+        let expected_prefix = Prefix {
+            version: cid.version(),
+            codec: cid.codec(),
+            multihash_type: cid.hash().code(),
+            multihash_len: cid.hash().size(),
+        }
+        .to_bytes();
+        let mut intact = true;
+        for f in frames {
+            match schema::bitswap::Message::decode(&f[..]) {
+                Ok(m) => {
+                    let sizes: Vec<usize> = m.payload.iter().map(|b| b.data.len()).collect();
+                    for b in &m.payload {
+                        let t = b.data.first().copied().unwrap_or(0);
+                        intact &= b.data.iter().all(|x| *x == t) && b.prefix == expected_prefix;
+                        received.push((b.data.len(), t));
+                    }
+                    msgs.push(format!("{}/{}", f.len(), rle(&sizes)));
+                }
+                Err(_) => msgs.push(format!("{}/undecodable", f.len())),
+            }
+        }
+        // neutral order observation: the received (size, tag) sequence is a subsequence of the
+        // submitted one
+        let mut j = 0;
+        let mut sub = true;
+        for r in &received {
+            while j < original.len() && (original[j].0 != r.0 || (r.0 > 0 && original[j].1 != r.1)) {
+                j += 1;
+            }
+            if j == original.len() {
+                sub = false;
+                break;
+            }
+            j += 1;
+        }
+        Some(format!(
+            "ret={} msgs=[{}] plan=[{}] sub={} intact={}",
+            if ok { "ok" } else { "err" },
+            msgs.join(" "),
+            plan.join(" "),
+            if sub { "yes" } else { "no" },
+            if intact { "yes" } else { "no" },
+        ))
+    }
+
+    fn message(&mut self, items: &[&str]) -> Option<String> {
+        let mut payload = Vec::new();
+        for it in items {
+            if it.starts_with("h=") {
+                continue;
+            }
+            let mut parts = it.split(':');
+            let prefix = unhex_opt(parts.next()?)?;
+            let data = parse_data(parts.next()?)?;
+            payload.push(schema::bitswap::Block { prefix, data });
+        }
+        let message = schema::bitswap::Message {
+            wantlist: Some(Default::default()),
+            payload,
+            ..Default::default()
+        };
+        let bytes = bytes::BytesMut::from(&message.encode_to_vec()[..]);
+        let (mut bitswap, mut handle) = new_bitswap();
+        let res = self.rt.block_on(async { bitswap.on_message_received(peer(2), bytes).await });
+        if res.is_err() {
+            return Some("error".into());
+        }
+        let mut out = Vec::new();
+        let mut events = 0;
+        while let Some(Some(ev)) = handle.next().now_or_never() {
+            events += 1;
+            match ev {
+                BitswapEvent::Response { peer: p, responses } => {
+                    if p != peer(2) {
+                        out.push("wrong-peer".to_string());
+                    }
+                    for r in responses {
+                        match r {
+                            ResponseType::Block { cid, block } =>
+                                out.push(format!("{}:{}", hex(&cid.to_bytes()), show_data(&block))),
+                            ResponseType::Presence { .. } => out.push("presence".into()),
+                        }
+                    }
+                }
+                BitswapEvent::Request { .. } => out.push("request".into()),
+            }
+        }
+        Some(match events {
+            0 => "noevent".into(),
+            1 => format!("event {}", out.join(" ")),
+            n => format!("events={} {}", n, out.join(" ")),
+        })
+    }
+}
+
+impl VerifBox for BitswapBox {
+    fn step(&mut self, line: &str) -> String {
+        let t: Vec<&str> = line.split_whitespace().filter(|a| !a.starts_with("h=")).collect();
+        let bad = || "bad-op".to_string();
+        match t.as_slice() {
+            ["prefix_dec", h] => {
+                let Some(bytes) = unhex_opt(h) else { return bad() };
+                match Prefix::from_bytes(&bytes) {
+                    Some(p) => format!(
+                        "some {} {} {} {}",
+                        u64::from(p.version),
+                        p.codec,
+                        p.multihash_type,
+                        p.multihash_len
+                    ),
+                    None => "none".into(),
+                }
+            }
+            ["prefix_enc", v, codec, mh, len] => {
+                let (Some(version), Ok(codec), Ok(mh), Ok(len)) =
+                    (version_of(v), codec.parse::<u64>(), mh.parse::<u64>(), len.parse::<u8>())
+                else {
+                    return bad();
+                };
+                show_hex(
+                    &Prefix {
+                        version,
+                        codec,
+                        multihash_type: mh,
+                        multihash_len: len,
+                    }
+                    .to_bytes(),
+                )
+            }
+            ["inbound", p, d] => {
+                let (Some(prefix), Some(data)) = (unhex_opt(p), parse_data(d)) else { return bad() };
+                let from: PeerId = peer(2);
+                match block_to_response(&from, schema::bitswap::Block { prefix, data }) {
+                    Some(ResponseType::Block { cid, block }) =>
+                        format!("ok {} {}", hex(&cid.to_bytes()), show_data(&block)),
+                    Some(ResponseType::Presence { .. }) => "presence".into(),
+                    None => "dropped".into(),
+                }
+            }
+            ["message", items @ ..] => self.message(items).unwrap_or_else(bad),
+            ["batches", v, codec, mh, dlen, sizes] =>
+                self.batches(v, codec, mh, dlen, sizes).unwrap_or_else(bad),
+            _ => bad(),
+        }
+    }
+}
